@@ -22,6 +22,15 @@ CHECKS = {
         "runtime monitor on return values of the real convert_conventions vs independent label law + reference evaluator",
         "4/C10",
     ),
+    "C20": (
+        "exploration",
+        "Each helper is executed on generated inputs and its return value compared with an independent expectation: "
+        "natural orbitals (orthonormality, generalized eigenvalues, reconstruction, acceptance edges of check_dm placed on both "
+        "sides), cell volume vs sqrt(det(Gram)) for all row permutations and handedness, set_four_index_element on ALL quadruples "
+        "n<=4/6 vs the independently generated 8-element orbit, strtobool on all letter-case variants + random strings.",
+        "runtime oracle on return values of the real helpers; finite sub-spaces enumerated exhaustively",
+        "4/C20",
+    ),
 }
 
 NOT_YET = "check not built yet (work in progress; see DESIGN.md section 5b)"
